@@ -1227,7 +1227,7 @@ class MatrixVectorProduct(VectorExpression):
         matrix: np.ndarray,
         vector: VectorVariable | VectorExpression,
     ) -> None:
-        matrix = np.asarray(matrix)
+        matrix = np.array(matrix, dtype=np.float64)  # numeric data, copied
         if matrix.ndim != 2:
             raise WrongDimensionalityError(
                 context="matrix-vector product",
@@ -1324,7 +1324,7 @@ class QuadraticForm(Expression):
         vector: VectorVariable | VectorExpression,
         matrix: np.ndarray,
     ) -> None:
-        matrix = np.asarray(matrix)
+        matrix = np.array(matrix, dtype=np.float64)  # numeric data, copied
         if matrix.ndim != 2:
             raise WrongDimensionalityError(
                 context="quadratic form",
